@@ -49,6 +49,39 @@ def _single_def(fn, name, before=None):
     return None
 
 
+def _offset_unchanged_up_to(case, call, P):
+    """No statement that can run between the entry of the match arm and the call writes the offset expression P (statements inside an
+    `if` that cannot fall through - it ends in continue / return / raise - are not on the way)."""
+    ptxt = S.unparse(P)
+    base = ptxt.split("[")[0]
+
+    def writes(st):
+        for x in ast.walk(st):
+            if isinstance(x, (ast.Assign, ast.AugAssign, ast.AnnAssign)):
+                for t in (x.targets if isinstance(x, ast.Assign) else [x.target]):
+                    if S.unparse(t) in (ptxt, base):
+                        return True
+        return False
+
+    def no_fallthrough(body):
+        return bool(body) and isinstance(body[-1], (ast.Continue, ast.Return, ast.Raise, ast.Break))
+    cur = call
+    while cur is not case:
+        par = cur._parent
+        for field in ("body", "orelse"):
+            blk = getattr(par, field, None)
+            if isinstance(blk, list) and any(x is cur for x in blk):
+                for st in blk[:[i for i, x in enumerate(blk) if x is cur][0]]:
+                    if isinstance(st, ast.If) and not st.orelse and no_fallthrough(st.body):
+                        if writes(st.test):
+                            return False
+                        continue
+                    if writes(st):
+                        return False
+        cur = par
+    return True
+
+
 def token_spelling_sites(ctx, rid):
     """Every token is made from (type, spelling, offset) where the spelling is the input text AT that offset:
     a slice text[offset:...], a constant the text was tested to start with at that offset, or the regex / fixed-literal match taken at that offset."""
@@ -100,7 +133,8 @@ def token_spelling_sites(ctx, rid):
                 if isinstance(g, ast.Match) and isinstance(g.subject, ast.Subscript) and is_text(g.subject.value, fn) and same_pos(g.subject.slice, P, fn):
                     for case in g.cases:
                         if isinstance(case.pattern, ast.MatchValue) and isinstance(case.pattern.value, ast.Constant) and case.pattern.value.value == v.value and any(x is c for st in case.body for x in ast.walk(st)):
-                            why = "constant spelling matched by `match text[offset]`"
+                            if _offset_unchanged_up_to(case, c, P):
+                                why = "constant spelling matched by `match text[offset]`, offset not moved in between"
         elif isinstance(V, ast.Name):
             d = _single_def(fn, V.id, before=c.lineno)
             if isinstance(d, tuple) and d[0] == "unpack" and isinstance(d[2], ast.Name):
@@ -161,6 +195,15 @@ def check(ctx):
         ctx.oblige("R-C09.1", f"punctuator {p}", ok, nontrivial=len(p) > 1)
         if not ok:
             viol("R-C09.1", f"punct:{p}", f"punctuator `{p}` is tokenised as {res} (expected one {want[0] if want else '?'} token of length {len(p)})", "_fixed_tokens")
+    # ... and each spelling carries the class of that operator / delimiter
+    for ttype, lit in m.t.fixed_tokens:
+        want_cls = LM.PUNCTUATOR_CLASS.get(lit)
+        if want_cls is None:
+            continue
+        ok = ttype == want_cls
+        ctx.oblige("R-C09.1", f"class of punctuator {lit}", ok, nontrivial=False)
+        if not ok:
+            viol("R-C09.1", f"punct-class:{lit}", f"punctuator `{lit}` is returned with token class {ttype}; it is the {want_cls} operator / delimiter: clients selecting on the token class (and the parser's operator tables) see another operator", "_fixed_tokens")
     token_spelling_sites(ctx, "R-C09.1")
     from . import c01
     c01.keyword_spellings(ctx, "R-C09.3")          # keyword vs identifier: exactly the C keywords are keywords
@@ -315,9 +358,33 @@ def check(ctx):
     ctx.trusted += ["re._parser", "E2 model"]
 
 
+def input_verbatim(ctx, rid):
+    """The text the lexer scans is the caller's text: every store to the scanned buffer assigns the `text` parameter of input() itself (or an
+    empty constant when the lexer is created); a transformed copy (tabs expanded, line ends normalised, stripped ...) changes token spellings
+    and columns depending on layout."""
+    lx = S.module("c_lexer")
+    n = 0
+    for fname, fn in lx.methods("CLexer").items():
+        params = {a.arg for a in fn.args.args[1:]}
+        for st in ast.walk(fn):
+            if isinstance(st, (ast.Assign, ast.AnnAssign, ast.AugAssign)):
+                tgts = st.targets if isinstance(st, ast.Assign) else [st.target]
+                if any(isinstance(t, ast.Attribute) and t.attr == "_lexdata" for t in tgts):
+                    v = st.value
+                    ok = (isinstance(v, ast.Name) and v.id in params and not isinstance(st, ast.AugAssign)) or (isinstance(v, ast.Constant) and v.value in ("", None))
+                    n += 1
+                    ctx.oblige(rid, f"{fname}: scanned buffer = caller's text", ok, sample={"rule": rid, "function": fname, "construct": S.unparse(st), "verdict": "verbatim" if ok else "TRANSFORMED"})
+                    if not ok:
+                        ctx.violation(rid, f"lexdata:{fname}", f"{fname}: `{S.unparse(st)[:80]}` - the lexer does not scan the caller's text itself but a transformed copy: spellings of literals / pragma text and columns then depend on the "
+                                      "layout (tabs, line ends) of the input", file=lx.rel, function=f"CLexer.{fname}", line=st.lineno, construct=S.unparse(st)[:160])
+    if n < 1:
+        raise AnalysisError("no store to CLexer._lexdata found (anchor of the scanned buffer vanished)")
+
+
 def scanner_sibling_rules(ctx, rule_blank, rule_line):
     """Sibling agreement of the hand-written directive scanners (shared with C17 / C18)."""
     lx = S.module("c_lexer")
+    input_verbatim(ctx, rule_blank)
 
     def viol(rule, key, msg, fn="", node=None):
         ctx.violation(rule, key, msg, file=lx.rel, function=fn, line=getattr(node, "lineno", 0), construct=S.unparse(node)[:160] if node is not None else "")
@@ -341,6 +408,49 @@ def scanner_sibling_rules(ctx, rule_blank, rule_line):
                 ctx.oblige(rule_blank, f"{fname}: blanks skipped by {n.func.id}() at line {n.lineno}", True)
     if nblank < 3:
         raise AnalysisError("blank-skipping sites of the directive scanners not found")
+    # a keyword recognised with text.startswith(LIT, cursor) is skipped by exactly len(LIT): one character more swallows whatever follows the
+    # keyword unseen, one less re-reads its tail
+    nkw = 0
+    for fname, fn in lx.methods("CLexer").items():
+        for n in ast.walk(fn):
+            if not (isinstance(n, ast.If) and S.enclosing_function(n) is fn):
+                continue
+            t, neg = n.test, False
+            if isinstance(t, ast.UnaryOp) and isinstance(t.op, ast.Not):
+                t, neg = t.operand, True
+            if not (isinstance(t, ast.Call) and isinstance(t.func, ast.Attribute) and t.func.attr == "startswith" and len(t.args) == 2 and isinstance(t.args[0], ast.Constant)
+                    and isinstance(t.args[0].value, str) and isinstance(t.args[1], ast.Name)):
+                continue
+            lit, cur_ = t.args[0].value, t.args[1].id
+            if neg:
+                blk, idx = _block_of(n)
+                follow = blk[idx + 1:]
+            else:
+                follow = n.body
+            step = None
+            for st in follow:
+                hit = next((x for x in ast.walk(st) if isinstance(x, (ast.AugAssign, ast.Assign)) and any(isinstance(tg, ast.Name) and tg.id == cur_ for tg in (x.targets if isinstance(x, ast.Assign) else [x.target]))), None)
+                if hit is not None:
+                    step = hit
+                    break
+            if step is None:
+                continue
+            k = None
+            if isinstance(step, ast.AugAssign) and isinstance(step.op, ast.Add):
+                v = step.value
+                if isinstance(v, ast.Constant) and isinstance(v.value, int):
+                    k = v.value
+                elif isinstance(v, ast.Call) and isinstance(v.func, ast.Name) and v.func.id == "len" and len(v.args) == 1 and isinstance(v.args[0], ast.Constant) and isinstance(v.args[0].value, str):
+                    k = len(v.args[0].value)
+            if k is None:
+                continue          # some other way of advancing: not this rule's business
+            nkw += 1
+            ok = k == len(lit)
+            ctx.oblige(rule_line, f"{fname}: keyword {lit!r} skipped by its own length", ok, sample={"rule": rule_line, "function": fname, "test": S.unparse(n.test), "advance": S.unparse(step), "verdict": "equal" if ok else f"{k} != {len(lit)}"})
+            if not ok:
+                viol(rule_line, f"keyword-skip:{fname}:{lit}", f"in {fname} the keyword tested by `{S.unparse(n.test)}` is skipped with `{S.unparse(step)}` ({k} characters for a {len(lit)}-character keyword): "
+                     + ("the character after the keyword is swallowed without being looked at, so junk glued to the directive is accepted" if k > len(lit) else "the tail of the keyword is read again as directive text"), f"CLexer.{fname}", step)
+    ctx.info["keyword_skip_sites"] = nkw     # (2 on the reviewed tree; the rule is conditional on the startswith idiom, another idiom is judged by the other rules)
     pl = lx.method("CLexer", "_handle_ppline")
     names = _ppline_names(pl, skippers)
     cursor, length, succ_name, skipper = names["cursor"], names["length"], names["success"], names["skipper"]
